@@ -187,6 +187,29 @@ func (p *vfParser) value() (vfVal, bool) {
 		if nd > 1 && p.s[p.i-nd] == '0' {
 			return vfVal{}, false // leading zero
 		}
+		digits := func() bool {
+			k := 0
+			for p.i < len(p.s) && p.s[p.i] >= '0' && p.s[p.i] <= '9' {
+				p.i++
+				k++
+			}
+			return k > 0
+		}
+		if p.i < len(p.s) && p.s[p.i] == '.' {
+			p.i++
+			if !digits() {
+				return vfVal{}, false
+			}
+		}
+		if p.i < len(p.s) && (p.s[p.i] == 'e' || p.s[p.i] == 'E') {
+			p.i++
+			if p.i < len(p.s) && (p.s[p.i] == '+' || p.s[p.i] == '-') {
+				p.i++
+			}
+			if !digits() {
+				return vfVal{}, false
+			}
+		}
 		return vfVal{1, p.s[start:p.i]}, true
 	}
 	return vfVal{}, false
@@ -569,4 +592,47 @@ func VerifC07_afterfailure() {
 	good := &vfFlaky{failAt: -1}
 	vfAssert(t.RenderTo(good) == nil, "render-ok")
 	vfAssert(string(good.got) == ref, "renderto-writes-what-render-returns")
+}
+
+// VerifC07_floats: floating-point items are JSON numbers as encoding/json writes them; the values JSON
+// cannot express (NaN, the infinities, of either float type) make the render fail with no text, wherever
+// in the table they sit.
+func VerifC07_floats() {
+	z := 0.0
+	vals := []interface{}{1.5, -z, 1e21, 1e-7, float32(0.1), 100.0, 123456789.0, float32(1e21), z / z, 1 / z, -1 / z, float32(1 / z), float32(z / z)}
+	wants := []string{"1.5", "-0", "1e+21", "1e-7", "0.1", "100", "123456789", "1e+21"}
+	k := vfChoice("value", len(vals))
+	t := New()
+	t.AddHeaders("id", "v")
+	where := vfChoice("where", 3)
+	for r := 0; r < 3; r++ {
+		if r == where {
+			t.AddRowItems(r, vals[k])
+		} else {
+			t.AddRowItems(r, "ok")
+		}
+	}
+	out, err := t.Render()
+	good := &vfFlaky{failAt: -1}
+	err2 := t.RenderTo(good)
+	if k >= len(wants) {
+		vfAssert(err != nil, "unencodable-item-is-an-error")
+		vfAssert(out == "", "no-text-on-error")
+		vfAssert(err2 != nil, "unencodable-item-is-an-error")
+		return
+	}
+	vfAssert(vfAnd(err == nil, err2 == nil), "render-ok")
+	vfAssert(string(good.got) == out, "renderto-writes-what-render-returns")
+	objs, ok := vfParseArray(out)
+	vfAssert(ok, "valid-json")
+	vfAssert(vfOr(!ok, len(objs) == 3), "one-object-per-row")
+	if !ok || len(objs) != 3 {
+		return
+	}
+	o := objs[where]
+	vfAssert(len(o.vals) == 2, "one-member-per-cell")
+	if len(o.vals) == 2 {
+		vfAssert(vfAnd(o.vals[1].kind == 1, o.vals[1].s == wants[k]), "number-as-encoding-json-writes-it")
+	}
+	vfObserveStr("out", out)
 }
